@@ -33,6 +33,7 @@ type Config struct {
 	Trace         bool
 	OpenClasses   map[string]bool // known-finding classes that are open (label -> true)
 	SampleEvery   int
+	BranchSites   bool
 }
 
 type workItem struct {
@@ -123,8 +124,11 @@ type Interp struct {
 	reached     map[string]bool
 	onPrefixEnd func()
 	known       map[int]bool
+	ord         *orderFacts
 	constCache  map[*ssa.Const]value
 	cl          *cloner
+	deferred    []deferredAssert
+	inEnd       bool
 	inInit      bool
 	atPrefixEnd bool
 	lastPanic   string
@@ -214,6 +218,32 @@ func (in *Interp) learn(t *Term, val bool) {
 		return
 	}
 	in.known[t.id] = val
+	if in.ord == nil {
+		in.ord = newOrderFacts()
+	}
+	switch t.op {
+	case opBvULt:
+		if val {
+			in.ord.addLE(t.args[0], t.args[1], true)
+		} else {
+			in.ord.addLE(t.args[1], t.args[0], false)
+		}
+	case opBvULe:
+		if val {
+			in.ord.addLE(t.args[0], t.args[1], false)
+		} else {
+			in.ord.addLE(t.args[1], t.args[0], true)
+		}
+	case opEq:
+		if t.args[0].w > 0 {
+			if val {
+				in.ord.addLE(t.args[0], t.args[1], false)
+				in.ord.addLE(t.args[1], t.args[0], false)
+			} else {
+				in.ord.addNE(t.args[0], t.args[1])
+			}
+		}
+	}
 	tc := in.tc
 	set := func(x *Term, v bool) {
 		if x.op == opConst {
@@ -263,6 +293,24 @@ func (in *Interp) eval3(t *Term) int8 {
 			return 1
 		}
 		return 0
+	}
+	if in.ord != nil {
+		switch t.op {
+		case opBvULt:
+			if r := in.ord.lt(t.args[0], t.args[1]); r >= 0 {
+				return r
+			}
+		case opBvULe:
+			if r := in.ord.le(t.args[0], t.args[1]); r >= 0 {
+				return r
+			}
+		case opEq:
+			if t.args[0].w > 0 {
+				if r := in.ord.eq(t.args[0], t.args[1]); r >= 0 {
+					return r
+				}
+			}
+		}
 	}
 	switch t.op {
 	case opNot:
@@ -562,8 +610,19 @@ func (in *Interp) traceUnder(m Model) []string {
 	return out
 }
 
-// assertCond: property assertion. Classes registered by verifClass since the
-// previous assertion partition failures into known findings and violations.
+// assertCond: property assertion. Symbolic assertions are collected and decided
+// together when the path is complete (every input follows exactly one complete
+// path, so deciding all assertions of a path under its final path condition
+// loses nothing and costs one query per path instead of one per assertion).
+// Classes registered by verifClass since the previous assertion partition
+// failures into known findings and violations.
+type deferredAssert struct {
+	label   string
+	cond    *Term
+	classes []classCond
+	evIdx   int
+}
+
 func (in *Interp) assertCond(label string, cond *Term) {
 	classes := in.pending
 	in.pending = nil
@@ -572,38 +631,35 @@ func (in *Interp) assertCond(label string, cond *Term) {
 	if cond.isTrue() {
 		return
 	}
-	in.decisions++
+	if r := in.eval3(cond); r == 1 {
+		return
+	}
+	in.deferred = append(in.deferred, deferredAssert{label, cond, classes, len(in.events)})
+	if cond.isFalse() {
+		// fails for every input that reaches this point: decide now and stop the path
+		in.checkDeferred()
+		panic(pathAbort{"assert-all-fail"})
+	}
+}
+
+// checkDeferred decides the collected assertions under the current path condition.
+func (in *Interp) checkDeferred() {
 	if in.replaying() {
-		// already checked when this prefix was first executed
-		in.replayNext()
-		in.addPC(cond)
-		in.afterReplay()
 		return
 	}
 	tc := in.tc
-	fail := tc.Not(cond)
-	// 1. failures inside listed classes
-	var notAny []*Term
-	for _, c := range classes {
-		q := tc.And(fail, c.cond)
-		notAny = append(notAny, tc.Not(c.cond))
+	remaining := in.deferred
+	in.deferred = nil
+	var hyp []*Term
+	for len(remaining) > 0 {
+		var negs []*Term
+		for _, d := range remaining {
+			negs = append(negs, tc.Not(d.cond))
+		}
+		q := tc.And(append(append([]*Term{}, hyp...), tc.Or(negs...))...)
 		if q.isFalse() {
-			continue
+			return
 		}
-		if res, m := in.check("classify", q); res == "sat" {
-			kind := "known"
-			if !in.cfg.OpenClasses[c.name] {
-				kind = "violation"
-			}
-			in.reportAt(kind, label, c.name, "", m)
-		} else if res == "unknown" {
-			in.unknownHits++
-			in.incomplete = append(in.incomplete, "unknown on classification "+label+"/"+c.name)
-		}
-	}
-	// 2. failures outside every listed class
-	q := tc.And(append([]*Term{fail}, notAny...)...)
-	if !q.isFalse() {
 		var res string
 		var m Model
 		if in.model != nil && in.evalModel(q) != 0 {
@@ -611,20 +667,82 @@ func (in *Interp) assertCond(label string, cond *Term) {
 		} else {
 			res, m = in.check("assert", q)
 		}
-		switch res {
-		case "sat":
-			in.reportAt("violation", label, "", "", m)
-		case "unknown":
+		if res == "unsat" {
+			return
+		}
+		if res != "sat" {
 			in.unknownHits++
-			in.incomplete = append(in.incomplete, "unknown on assertion "+label)
+			in.incomplete = append(in.incomplete, "unknown on assertions "+remaining[0].label+"...")
+			return
+		}
+		// first failing assertion (in program order) under this model
+		memo := map[int]uint64{}
+		idx := -1
+		for i, d := range remaining {
+			if m.eval(d.cond, memo) == 0 {
+				idx = i
+				break
+			}
+		}
+		if idx < 0 {
+			panic(engineError{"model does not falsify any assertion"})
+		}
+		d := remaining[idx]
+		in.classify(d, hyp, m)
+		hyp = append(hyp, d.cond)
+		remaining = append(append([]deferredAssert{}, remaining[:idx]...), remaining[idx+1:]...)
+	}
+}
+
+func (in *Interp) classify(d deferredAssert, hyp []*Term, m Model) {
+	tc := in.tc
+	fail := tc.And(append(append([]*Term{}, hyp...), tc.Not(d.cond))...)
+	if len(d.classes) == 0 {
+		in.reportEv("violation", d.label, "", "", m, d.evIdx)
+		return
+	}
+	var notAny []*Term
+	for _, c := range d.classes {
+		notAny = append(notAny, tc.Not(c.cond))
+		q := tc.And(fail, c.cond)
+		if q.isFalse() {
+			continue
+		}
+		res, mm := in.check("classify", q)
+		if res == "sat" {
+			kind := "known"
+			if !in.cfg.OpenClasses[c.name] {
+				kind = "violation"
+			}
+			in.reportEv(kind, d.label, c.name, "", mm, d.evIdx)
+		} else if res != "unsat" {
+			in.unknownHits++
+			in.incomplete = append(in.incomplete, "unknown on classification "+d.label+"/"+c.name)
 		}
 	}
-	// continue on the side where the assertion holds
-	in.pos++
-	in.trail = append(in.trail, 1)
-	if !in.assume(cond, "assert-continue") {
-		panic(pathAbort{"assert-all-fail"})
+	q := tc.And(append([]*Term{fail}, notAny...)...)
+	if q.isFalse() {
+		return
 	}
+	res, mm := in.check("classify", q)
+	if res == "sat" {
+		in.reportEv("violation", d.label, "", "", mm, d.evIdx)
+	} else if res != "unsat" {
+		in.unknownHits++
+		in.incomplete = append(in.incomplete, "unknown on classification "+d.label)
+	}
+}
+
+// reportEv records a finding whose predicted trace ends at event evIdx.
+func (in *Interp) reportEv(kind, label, class, msg string, m Model, evIdx int) {
+	f := Finding{Kind: kind, Label: label, Class: class, Msg: msg, Prefix: append([]uint64(nil), in.trail...),
+		Harness: in.cfg.Harness, Bounds: in.cfg.Bounds}
+	f.Vector = in.vectorUnder(m)
+	save := in.events
+	in.events = in.events[:evIdx]
+	f.Vector.Expect = in.traceUnder(m)
+	in.events = save
+	in.findings = append(in.findings, f)
 }
 
 func (in *Interp) reportAt(kind, label, class, msg string, m Model) {
@@ -673,7 +791,7 @@ func (w *worker) runPath(item workItem) (res PathResult) {
 	defer func() {
 		r := recover()
 		in.reap()
-		in.sol.endPath()
+		defer in.sol.endPath()
 		if in.fatal != nil && (r == nil || isDead(r)) {
 			r = in.fatal
 		}
@@ -701,6 +819,17 @@ func (w *worker) runPath(item workItem) (res PathResult) {
 			res.Outcome = "engine-crash"
 			res.Msg = fmt.Sprintf("%v\n%s", r, debug.Stack())
 			in.incomplete = append(in.incomplete, "engine crash: "+fmt.Sprint(r))
+		}
+		if in.model != nil && len(in.deferred) > 0 && res.Outcome != "engine-error" && res.Outcome != "engine-crash" && res.Outcome != "solver-unknown" && res.Outcome != "infeasible" && res.Outcome != "assume-false" && res.Outcome != "assert-all-fail" {
+			func() {
+				defer func() {
+					if r := recover(); r != nil {
+						in.incomplete = append(in.incomplete, fmt.Sprint("deferred assertion check failed: ", r))
+					}
+				}()
+				in.inEnd = true
+				in.checkDeferred()
+			}()
 		}
 		for _, rc := range in.races {
 			in.report("race", "data-race", "", rc, in.model)
